@@ -6,6 +6,7 @@ import (
 	"go/token"
 	"go/types"
 	"strings"
+	"unicode/utf8"
 
 	"golang.org/x/tools/go/ssa"
 )
@@ -234,6 +235,10 @@ func (in *Interp) Decide(cond Val, site ssa.Instruction) bool {
 			return b
 		}
 	}
+	// a decision on !x is the decision on x, recorded under x
+	if sy, ok := cond.(*Sym); ok && sy.Op == "!" && len(sy.Args) == 1 {
+		return !in.Decide(sy.Args[0], site)
+	}
 	k := Key(cond)
 	if b, ok := in.Conds[k]; ok {
 		return b
@@ -269,6 +274,9 @@ func (in *Interp) CallFn(fn *ssa.Function, args []Val, bind []Val, site ssa.Inst
 		if r, ok := in.Hooks.Call(in, fn, args, site); ok {
 			return r
 		}
+	}
+	if r, ok := pureStd(fn, args); ok {
+		return r
 	}
 	if fn.Blocks == nil {
 		if r, ok := in.extern(fn, args, site); ok {
@@ -674,8 +682,23 @@ func (in *Interp) step(fr *Frame, ins ssa.Instruction) {
 	case *ssa.Go, *ssa.Send, *ssa.Select:
 		in.Undecided("concurrency instruction", ins)
 	case *ssa.Range:
+		if str, ok := ConstString(in.get(fr, x.X)); ok {
+			fr.Regs[x] = &strIter{s: str}
+			return
+		}
 		fr.Regs[x] = Top{"range over map/string"}
 	case *ssa.Next:
+		if it, ok := in.get(fr, x.Iter).(*strIter); ok && x.IsString {
+			// (ok, index, rune) of the next character of a constant string
+			if it.pos >= len(it.s) {
+				fr.Regs[x] = &Tuple{E: []Val{MkBool(false), MkInt(0), MkIntT(0, types.Typ[types.Rune])}}
+				return
+			}
+			r, w := utf8.DecodeRuneInString(it.s[it.pos:])
+			fr.Regs[x] = &Tuple{E: []Val{MkBool(true), MkInt(int64(it.pos)), MkIntT(int64(r), types.Typ[types.Rune])}}
+			it.pos += w
+			return
+		}
 		fr.Regs[x] = Top{"next over map/string"}
 	default:
 		if v, ok := ins.(ssa.Value); ok {
@@ -1322,4 +1345,110 @@ func opaqueResult(fn *ssa.Function, args []Val) Val {
 		t.E = append(t.E, &Sym{Op: fmt.Sprintf("%s.%d", name, i), Args: args, T: res.At(i).Type()})
 	}
 	return t
+}
+
+// InitGlobals interprets the initialiser of one package and returns the
+// package level variables it set up (imported packages count as initialised).
+// Engines that evaluate functions of the package share the result, so that
+// lookup tables and other computed package variables have their real contents.
+func InitGlobals(prog *ssa.Program, pkg *ssa.Package) (map[*ssa.Global]*Cell, *PathEnd) {
+	in := NewInterp(prog, &Oracle{})
+	in.MaxStep = 2000000
+	in.Hooks.Global = func(in *Interp, g *ssa.Global) (Val, bool) {
+		if strings.HasPrefix(g.Name(), "init$guard") {
+			return MkBool(g.Pkg != pkg), true
+		}
+		if g.Pkg == pkg {
+			return Zero(g.Type().Underlying().(*types.Pointer).Elem()), true
+		}
+		return nil, false
+	}
+	in.Hooks.Call = func(in *Interp, fn *ssa.Function, args []Val, site ssa.Instruction) (Val, bool) {
+		if fn.Name() == "init" && fn.Pkg != pkg {
+			return nil, true
+		}
+		return nil, false
+	}
+	fn := pkg.Func("init")
+	if fn == nil {
+		return in.Globals, nil
+	}
+	_, end := in.Run(fn, nil)
+	return in.Globals, end
+}
+
+// strIter is the iterator of a range loop over a constant string.
+type strIter struct {
+	s   string
+	pos int
+}
+
+func (it *strIter) ObjString() string { return fmt.Sprintf("range(%q)@%d", it.s, it.pos) }
+
+// pureStd evaluates pure string predicates of the standard library on
+// constant arguments (their bodies end in assembly the interpreter cannot follow).
+func pureStd(fn *ssa.Function, args []Val) (Val, bool) {
+	if fn.Pkg == nil || fn.Pkg.Pkg.Path() != "strings" {
+		return nil, false
+	}
+	str := func(i int) (string, bool) {
+		if i >= len(args) {
+			return "", false
+		}
+		return ConstString(args[i])
+	}
+	num := func(i int) (int64, bool) {
+		if i >= len(args) {
+			return 0, false
+		}
+		return ConstInt(args[i])
+	}
+	a, okA := str(0)
+	if !okA {
+		return nil, false
+	}
+	switch fn.Name() {
+	case "Contains", "HasPrefix", "HasSuffix", "ContainsAny", "Index", "LastIndex", "Count", "IndexAny":
+		b, ok := str(1)
+		if !ok {
+			return nil, false
+		}
+		switch fn.Name() {
+		case "Contains":
+			return mkBool(strings.Contains(a, b)), true
+		case "HasPrefix":
+			return mkBool(strings.HasPrefix(a, b)), true
+		case "HasSuffix":
+			return mkBool(strings.HasSuffix(a, b)), true
+		case "ContainsAny":
+			return mkBool(strings.ContainsAny(a, b)), true
+		case "Index":
+			return MkInt(int64(strings.Index(a, b))), true
+		case "LastIndex":
+			return MkInt(int64(strings.LastIndex(a, b))), true
+		case "Count":
+			return MkInt(int64(strings.Count(a, b))), true
+		case "IndexAny":
+			return MkInt(int64(strings.IndexAny(a, b))), true
+		}
+	case "ContainsRune", "IndexRune":
+		r, ok := num(1)
+		if !ok {
+			return nil, false
+		}
+		if fn.Name() == "ContainsRune" {
+			return mkBool(strings.ContainsRune(a, rune(r))), true
+		}
+		return MkInt(int64(strings.IndexRune(a, rune(r)))), true
+	case "IndexByte", "LastIndexByte":
+		c, ok := num(1)
+		if !ok {
+			return nil, false
+		}
+		if fn.Name() == "IndexByte" {
+			return MkInt(int64(strings.IndexByte(a, byte(c)))), true
+		}
+		return MkInt(int64(strings.LastIndexByte(a, byte(c)))), true
+	}
+	return nil, false
 }
